@@ -22,7 +22,7 @@ CONSTANTS
   Fine = TRUE
   TickFirst = FALSE
   Reduce = FALSE
-INVARIANTS TypeOK NoDoubleSignEnv SlotOnceX TableExact PendingExactX
+INVARIANTS TypeOK NoDoubleSignEnv SlotOnce CancelledNeverRuns TableExact PendingExact
 CONSTRAINT HWM
 POSTCONDITION TraceAccepted
 CHECK_DEADLOCK FALSE
